@@ -78,6 +78,12 @@ CHECKS = {
   note='Trusted: Mac.tla (intended MAC behaviour, DESIGN Appendix B), Regions.tla (regional tables; disputed entries take the laxer reading), Codec.tla/Aes.tla/Cmac.tla (decide authenticity of every delivered frame and decode every uplink), TLC, the scripted radios/timer/RNG of the harness (no oracle logic). Histories are seeded-random (VERIF_SEED), not exhaustive; the exhaustive part is the named MC config over scaled-down constants.',
   technique="explicit TLA+ specification (Mac.tla, Regions.tla, Codec.tla) checked with TLC: " + 'MacTrace.tla' + "; implementation traces validated against it",
   design="DESIGN.md §6 C20"),
+ "C14": dict(
+  category="model_checking",
+  text="Exhaustive enumeration of API call sequences (quick: depth 2, thorough: depth 3, plus structured depth-4/5 histories around sleep/re-initialisation) over the property's call alphabet x interrupt outcomes, with a fault injected at EVERY bus event (SPI transfer, BUSY wait, DIO wait, reset, RF switch) of the last call and a dropped future at the droppable wait, on the real LoRa<Sx126x> over a scripted bus. PhyTrace.tla holds an abstract SX126x that is stepped by decoding the raw SPI bytes actually sent, and checks the four clauses: wrong-mode calls refused without bus traffic, never commanded asleep without wake-up, everything reprogrammed after cold start before TX/RX/CAD starts, standby + driver knows after failure. Injected-fault violations of clause 4 are an open finding (S23), listed per call; timeouts and interrupt errors are held to clause 4 strictly.",
+  note="Trusted: the abstract SX126x of PhyTrace.tla (datasheet-level, small). Covered: SX1262 with DC-DC and TCXO. NOT covered by this check: SX127x, the LoRaWAN radio adapter (lorawan_radio.rs), call sequences deeper than the stated bounds.",
+  technique="explicit TLA+ chip model + clauses (PhyTrace.tla) checked with TLC on exhaustively enumerated call/outcome/fault sequences executed on the real driver",
+  design="DESIGN.md §6 C14"),
  "C15": dict(
   category="model_checking",
   text="Exhaustive over the finite domain (8 SF x 10 BW): every implementation's LDRO decision (airtime calculator, SX126x, SX1276, SX1272, LR11xx) and the LDRO bit decoded from the SPI bytes each driver writes are recorded and validated by TLC against Modulation!Ldro (symbol time >= 16.38 ms, exact rational comparison), plus mutual agreement.",
